@@ -735,25 +735,26 @@ Proof.
   - apply (IH q b Hs y Hy).
 Qed.
 
-Lemma loop_ok : forall todo done g pm,
-  L = done ++ todo -> desc_sorted L -> (forall p peps, In (p, peps) L -> peps <> []) ->
+Lemma loop_ok : forall todo rest done g pm,
+  L = done ++ todo ++ rest -> desc_sorted L -> (forall p peps, In (p, peps) L -> peps <> []) ->
   ginv done g pm ->
-  exists g' pm', gr_loop P peqb pi (g, pm) todo = Ok (g', pm') /\ ginv L g' pm'.
+  exists g' pm', gr_loop P peqb pi (g, pm) todo = Ok (g', pm') /\ ginv (done ++ todo) g' pm'.
 Proof.
-  induction todo as [|[p peps] r IH]; intros done g pm EL Hs Hne Hgi.
-  - rewrite app_nil_r in EL. subst done. exists g, pm. split; [reflexivity|assumption].
+  induction todo as [|[p peps] r IH]; intros rest done g pm EL Hs Hne Hgi.
+  - rewrite app_nil_r. exists g, pm. split; [reflexivity|assumption].
   - assert (HpL : In (p, peps) L) by (rewrite EL; apply in_app_iff; right; left; reflexivity).
     assert (HdL : incl done L) by (intros y Hy; rewrite EL; apply in_app_iff; left; assumption).
     assert (Hpnd : ~ In p (map fst done)).
     { pose proof L_names as Hn. rewrite EL in Hn. rewrite map_app in Hn. simpl in Hn.
       apply NoDup_remove_2 in Hn. intros H. apply Hn. apply in_app_iff. left. assumption. }
     assert (Hlen : forall y, In y done -> length peps <= length (snd y)).
-    { intros y Hy. rewrite EL in Hs. apply (desc_sorted_app done (p, peps) r Hs y Hy). }
+    { intros y Hy. rewrite EL in Hs. apply (desc_sorted_app done (p, peps) (r ++ rest) Hs y Hy). }
     destruct (step_ok done p peps g pm HpL HdL Hpnd (Hne p peps HpL) Hlen Hgi) as [g1 [pm1 [Hrun Hgi1]]].
-    destruct (IH (done ++ [(p, peps)]) g1 pm1) as [g' [pm' [Hrun' Hgi']]]; try assumption.
+    destruct (IH rest (done ++ [(p, peps)]) g1 pm1) as [g' [pm' [Hrun' Hgi']]]; try assumption.
     { rewrite <- app_assoc. exact EL. }
-    exists g', pm'. split; [|assumption].
-    simpl. rewrite Hrun. exact Hrun'.
+    exists g', pm'. split.
+    + simpl. rewrite Hrun. exact Hrun'.
+    + rewrite <- app_assoc in Hgi'. exact Hgi'.
 Qed.
 
 (* the peptide dict handed to _group_proteins: peptide -> one-element names of its proteins *)
@@ -894,14 +895,46 @@ Proof.
   { split; [|assumption]. intros pep x. rewrite (H0 pep x). split.
     - intros [p [peps [H1 H2]]]. exists p, peps. split; [apply Hext; assumption|assumption].
     - intros [p [peps [H1 H2]]]. exists p, peps. split; [apply Hext; assumption|assumption]. }
-  destruct (loop_ok L HLn HLp pi Hpi L [] [] pm0) as [g [pm [Hrun Hgi]]].
-  - reflexivity.
+  destruct (loop_ok L HLn HLp pi Hpi L [] [] [] pm0) as [g [pm [Hrun Hgi]]].
+  - rewrite app_nil_r. reflexivity.
   - apply sort_desc_sorted.
   - intros p peps Hin. apply (Hpeps p peps). apply Hext. assumption.
   - apply ginv_init. assumption.
   - exists g, pm. split; [exact Hrun|].
     destruct (ginv_spec L HLn g pm Hgi) as [Hs Hp].
     split; [|assumption]. apply (group_spec_ext L prots g Hext Hs).
+Qed.
+
+(* C16_invariant: after any number of iterations of the loop over the (sorted) proteins, the names
+   recorded for a peptide that are current group names are exactly the groups containing it *)
+Theorem loop_invariant : forall pi prots pm0 done todo,
+  perm_oracle pi -> wf_prots prots -> pm0_ok prots pm0 ->
+  gr_sort_desc P prots = done ++ todo ->
+  exists g pm, gr_loop P peqb pi ([], pm0) done = Ok (g, pm) /\
+    forall n S pep, In (n, S) g -> (In n (lookup pep pm) <-> In pep S).
+Proof.
+  intros pi prots pm0 done todo Hpi [Hnames Hpeps] [H0 Hnd0] Esort.
+  set (L := gr_sort_desc P prots) in *.
+  assert (Hperm : Permutation prots L) by apply sort_desc_perm.
+  assert (Hext : forall e, In e L <-> In e prots).
+  { intros e. split; intros H.
+    - apply (Permutation_in _ (Permutation_sym Hperm)). assumption.
+    - apply (Permutation_in _ Hperm). assumption. }
+  assert (HLn : NoDup (map fst L)).
+  { eapply Permutation_NoDup; [apply Permutation_map; exact Hperm|assumption]. }
+  assert (HLp : forall p peps, In (p, peps) L -> NoDup peps).
+  { intros p peps Hin. apply (Hpeps p peps). apply Hext. assumption. }
+  assert (Hpm0 : pm0_ok L pm0).
+  { split; [|assumption]. intros pep x. rewrite (H0 pep x). split.
+    - intros [p [peps [H1 H2]]]. exists p, peps. split; [apply Hext; assumption|assumption].
+    - intros [p [peps [H1 H2]]]. exists p, peps. split; [apply Hext; assumption|assumption]. }
+  destruct (loop_ok L HLn HLp pi Hpi done todo [] [] pm0) as [g [pm [Hrun Hgi]]].
+  - exact Esort.
+  - apply sort_desc_sorted.
+  - intros p peps Hin. apply (Hpeps p peps). apply Hext. assumption.
+  - apply ginv_init. assumption.
+  - exists g, pm. split; [exact Hrun|]. simpl in Hgi.
+    intros n S pep Hin. apply (key_lookup L HLn _ g pm n S pep (gi_core _ _ _ _ Hgi) (gi_pm _ _ _ _ Hgi) Hin).
 Qed.
 
 (* ================================================================== keys of the peptide dict *)
@@ -1152,6 +1185,20 @@ Proof.
            ++ left. left. assumption.
            ++ injection H1 as E1 E2. subst q pq. left. right. assumption.
            ++ right. exists q, pq. split; assumption.
+Qed.
+
+(* the two maps read_fasta hands to _group_proteins satisfy its precondition *)
+Lemma build_pm0_ok : forall entries d0 pm0,
+  NoDup (map fst entries) -> gr_build P peqb entries [] [] = (d0, pm0) ->
+  d0 = clean entries /\ wf_prots (clean entries) /\ pm0_ok (clean entries) pm0.
+Proof.
+  intros entries d0 pm0 Hnd Eb.
+  destruct (build_ok entries [] [] d0 pm0 Hnd) as [B1 [B2 [B3 _]]]; [intros p _ []|exact Eb|].
+  split; [exact B1|]. split; [apply clean_wf; assumption|]. split.
+  - intros pep x. rewrite (B2 pep x). simpl. split.
+    + intros [[]|H]. exact H.
+    + intros H. right. exact H.
+  - apply B3. intros pep. simpl. constructor.
 Qed.
 
 (* ================================================================== independence of orders *)
@@ -1630,3 +1677,154 @@ Qed.
 End Fasta.
 
 End GroupingProofs.
+
+(* ================================================================== the extracted instance *)
+Lemma gr_str_eqb_spec : forall a b : str, reflect (a = b) (str_eqb a b).
+Proof.
+  induction a as [|x a IH]; intros [|y b]; simpl; try (constructor; congruence).
+  destruct (Z.eqb_spec x y) as [E|E]; simpl.
+  - destruct (IH b) as [E2|E2]; constructor; congruence.
+  - constructor; congruence.
+Qed.
+
+Lemma gr_take_nth_perm : forall {A} i (l : list A) x r,
+  gr_take_nth i l = Some (x, r) -> Permutation l (x :: r).
+Proof.
+  intros A i l. revert i. induction l as [|y l IH]; intros i x r H.
+  { destruct i; simpl in H; discriminate. }
+  destruct i as [|j]; simpl in H.
+  - injection H as E1 E2. subst. apply Permutation_refl.
+  - destruct (gr_take_nth j l) as [[z r']|] eqn:E; [|discriminate].
+    injection H as E1 E2. subst.
+    eapply perm_trans; [apply perm_skip; apply (IH j x r' E)|apply perm_swap].
+Qed.
+
+Lemma gr_perm_fuel_perm : forall {A} fuel k (l : list A), Permutation l (gr_perm_fuel fuel k l).
+Proof.
+  intros A fuel. induction fuel as [|f IH]; intros k l; simpl; [apply Permutation_refl|].
+  destruct l as [|a l']; [apply Permutation_refl|].
+  destruct (gr_take_nth (Nat.modulo k (length (a :: l'))) (a :: l')) as [[x r]|] eqn:E;
+    [|apply Permutation_refl].
+  eapply perm_trans; [apply (gr_take_nth_perm _ _ _ _ E)|apply perm_skip; apply IH].
+Qed.
+
+Lemma gr_perm_oracle : forall k, perm_oracle str (fun _ l => gr_perm k l).
+Proof. intros k p l. unfold gr_perm. apply gr_perm_fuel_perm. Qed.
+
+(* ================================================================== statements used by Props/C16.v *)
+Definition eqb_ok {P : Type} (peqb : P -> P -> bool) : Type := forall a b, reflect (a = b) (peqb a b).
+
+Lemma group_inv : forall P peqb, eqb_ok peqb -> forall pi prots pm0 g pm,
+  perm_oracle P pi -> wf_prots P prots -> pm0_ok P prots pm0 ->
+  gr_group P peqb pi prots pm0 = Ok (g, pm) -> group_spec P prots g /\ pmap_spec P g pm.
+Proof.
+  intros P peqb He pi prots pm0 g pm Hpi Hwf H0 Hrun.
+  destruct (group_ok P peqb He pi prots pm0 Hpi Hwf H0) as [g1 [pm1 [R1 Hs]]].
+  rewrite Hrun in R1. injection R1 as E1 E2. subst g1 pm1. exact Hs.
+Qed.
+
+Lemma group_characterisation : forall P peqb, eqb_ok peqb -> forall pi prots pm0,
+  perm_oracle P pi -> wf_prots P prots -> pm0_ok P prots pm0 ->
+  exists g pm, gr_group P peqb pi prots pm0 = Ok (g, pm) /\
+    (forall n S, In (n, S) g -> maximal P prots S /\ members_ok P prots n S /\ NoDup n) /\
+    (forall S, maximal P prots S -> exists n S', In (n, S') g /\ seteq S' S) /\
+    NoDup (map fst g) /\
+    (forall pep, NoDup (gr_lookup P pep pm) /\
+                 forall x, In x (gr_lookup P pep pm) <-> exists S, In (x, S) g /\ In pep S).
+Proof.
+  intros P peqb He pi prots pm0 Hpi Hwf H0.
+  destruct (group_ok P peqb He pi prots pm0 Hpi Hwf H0) as [g [pm [R1 [Hs Hp]]]].
+  exists g, pm. split; [exact R1|]. split; [|split; [|split]].
+  - intros n S Hin. split; [apply (gs_maximal _ _ _ Hs n S Hin)|].
+    split; [apply (gs_members _ _ _ Hs n S Hin)|apply (gs_listed_once _ _ _ Hs n S Hin)].
+  - apply (gs_all_maximal _ _ _ Hs).
+  - apply (gs_keys _ _ _ Hs).
+  - exact Hp.
+Qed.
+
+Lemma group_cover : forall P peqb, eqb_ok peqb -> forall pi prots pm0 g pm,
+  perm_oracle P pi -> wf_prots P prots -> pm0_ok P prots pm0 ->
+  gr_group P peqb pi prots pm0 = Ok (g, pm) ->
+  forall p peps, In (p, peps) prots -> exists n S, In (n, S) g /\ In p n /\ incl peps S.
+Proof.
+  intros P peqb He pi prots pm0 g pm Hpi Hwf H0 Hrun p peps Hin.
+  destruct (group_inv P peqb He pi prots pm0 g pm Hpi Hwf H0 Hrun) as [Hs _].
+  destruct (gs_cover _ _ _ Hs p peps Hin) as [n [S [HinS Hpn]]].
+  exists n, S. split; [assumption|]. split; [assumption|].
+  apply (proj1 (gs_members _ _ _ Hs n S HinS p)) in Hpn. destruct Hpn as [peps' [Hp' Hsub]].
+  destruct Hwf as [Hnd _].
+  assert (E : (p, peps') = (p, peps)) by (eapply nodup_map_inj; [exact Hnd|assumption|assumption|reflexivity]).
+  injection E as E. subst peps'. assumption.
+Qed.
+
+Lemma group_set : forall P peqb, eqb_ok peqb -> forall pi prots pm0 g pm,
+  perm_oracle P pi -> wf_prots P prots -> pm0_ok P prots pm0 ->
+  gr_group P peqb pi prots pm0 = Ok (g, pm) ->
+  forall n S, In (n, S) g ->
+    (exists f, In f n /\ In (f, S) prots) /\
+    (forall x peps, In x n -> In (x, peps) prots -> incl peps S).
+Proof.
+  intros P peqb He pi prots pm0 g pm Hpi Hwf H0 Hrun n S Hin.
+  destruct (group_inv P peqb He pi prots pm0 g pm Hpi Hwf H0 Hrun) as [Hs _].
+  split; [apply (gs_founder _ _ _ Hs n S Hin)|].
+  intros x peps Hx Hxp.
+  apply (proj1 (gs_members _ _ _ Hs n S Hin x)) in Hx. destruct Hx as [peps' [Hp' Hsub]].
+  destruct Hwf as [Hnd _].
+  assert (E : (x, peps') = (x, peps)) by (eapply nodup_map_inj; [exact Hnd|assumption|assumption|reflexivity]).
+  injection E as E. subst peps'. assumption.
+Qed.
+
+Lemma group_antichain : forall P peqb, eqb_ok peqb -> forall pi prots pm0 g pm,
+  perm_oracle P pi -> wf_prots P prots -> pm0_ok P prots pm0 ->
+  gr_group P peqb pi prots pm0 = Ok (g, pm) ->
+  forall n S n' S', In (n, S) g -> In (n', S') g -> incl S S' -> n = n' /\ S = S'.
+Proof.
+  intros P peqb He pi prots pm0 g pm Hpi Hwf H0 Hrun n S n' S' Hin Hin' Hsub.
+  destruct (group_inv P peqb He pi prots pm0 g pm Hpi Hwf H0 Hrun) as [Hs _].
+  assert (E : n = n') by (apply (gs_anti _ _ _ Hs n S n' S' Hin Hin' Hsub)). subst n'.
+  split; [reflexivity|].
+  assert (E : (n, S) = (n, S')) by (eapply nodup_map_inj; [apply (gs_keys _ _ _ Hs)|assumption|assumption|reflexivity]).
+  congruence.
+Qed.
+
+Lemma fasta_unique_shared : forall P peqb, eqb_ok peqb -> forall is_decoy decoy_of pi entries out,
+  perm_oracle P pi -> NoDup (map fst entries) ->
+  gr_read_fasta P peqb pi is_decoy decoy_of entries = Ok out ->
+  exists g, group_spec P (clean P entries) g /\
+    (forall pep n, In (pep, n) (gr_unique P out) <->
+       in_group P g n pep /\ forall n', in_group P g n' pep -> n' = n) /\
+    (forall pep ns, In (pep, ns) (gr_shared P out) ->
+       NoDup ns /\ 2 <= length ns /\ forall x, In x ns <-> in_group P g x pep) /\
+    (forall pep n n', n <> n' -> in_group P g n pep -> in_group P g n' pep ->
+       In pep (map fst (gr_shared P out))) /\
+    NoDup (map fst (gr_unique P out) ++ map fst (gr_shared P out)).
+Proof.
+  intros P peqb He is_decoy decoy_of pi entries out Hpi Hnd Hrun.
+  pose proof (read_fasta_inv P peqb He is_decoy decoy_of pi entries out Hpi Hnd Hrun) as Hf.
+  destruct (fs_groups _ _ _ _ _ Hf) as [g [Hs [U [S1 S2]]]].
+  exists g. split; [assumption|]. split; [assumption|]. split; [assumption|]. split; [assumption|].
+  apply (fs_keys _ _ _ _ _ Hf).
+Qed.
+
+Lemma fasta_decoy_pairing : forall P peqb, eqb_ok peqb -> forall is_decoy decoy_of pi entries out,
+  perm_oracle P pi -> NoDup (map fst entries) ->
+  gr_read_fasta P peqb pi is_decoy decoy_of entries = Ok out ->
+  (forall t d, In (t, d) (gr_protein_map P out) <->
+     In t (map fst (clean P entries)) /\ is_decoy t = false /\ d = decoy_of t) /\
+  NoDup (map fst (gr_protein_map P out)) /\
+  (gr_has_decoys P out = true <->
+     exists t, In t (map fst (clean P entries)) /\ is_decoy t = false /\
+               In (decoy_of t) (map fst (clean P entries))).
+Proof.
+  intros P peqb He is_decoy decoy_of pi entries out Hpi Hnd Hrun.
+  pose proof (read_fasta_inv P peqb He is_decoy decoy_of pi entries out Hpi Hnd Hrun) as Hf.
+  split; [apply (fs_pmap _ _ _ _ _ Hf)|]. split; [apply (fs_pmap_keys _ _ _ _ _ Hf)|apply (fs_has_decoys _ _ _ _ _ Hf)].
+Qed.
+
+Lemma fasta_str_instance : forall k prefix entries out,
+  NoDup (map fst entries) -> gr_read_fasta_str k prefix entries = Ok out ->
+  fasta_spec str (prefixb prefix) (fun n => prefix ++ n) entries out.
+Proof.
+  intros k prefix entries out Hnd Hrun. unfold gr_read_fasta_str in Hrun.
+  eapply read_fasta_inv; [exact gr_str_eqb_spec|apply (gr_perm_oracle k)|exact Hnd|exact Hrun].
+Qed.
